@@ -50,6 +50,20 @@ PROPS = {
                    "correspondence and the nondeterminism-site fact, not by a theorem; map-iteration order inside methods is only sampled",
         "assumptions": ["SHA3 collision freedom (ChangesHash pins the patch)"],
     },
+    "C17": {
+        "module": "ZenonVerif.Props.C17",
+        "streams": [S("spork", 10, 300, timeout=7200)],
+        "rule": "spork stream: one evaluation = one line of a scenario on a real node: outcome of a create/activate call "
+                "(right key, wrong key, repeated, unknown id), IsSporkActive of every spork on the store of every height, the "
+                "unimplemented-spork report on every height, availability of a (contract, method) for a block acknowledging a "
+                "momentum within ±2 of an enforcement height (live and against historical momentums); two thirds of the scenarios "
+                "activate in the order accelerator/bridge/htlc, the rest in random order, a quarter add an unknown spork; "
+                "distinct = distinct lines",
+        "partial": "gating is exact only when sporks are enforced in the order accelerator, bridge&liquidity, htlc (known "
+                   "finding F17); the case 'activating receive confirmed later than the enforcement height' is excluded by "
+                   "hypothesis of gate_by_height's use (state as of the recording momentum) and not reachable on the mock chain; "
+                   "'identically on every node' is C02/C07",
+    },
     "C08": {
         "module": "ZenonVerif.Props.C08",
         "streams": [S("crash", 25, 1500, timeout=7200)],
